@@ -134,6 +134,33 @@ pub fn reuse(args: &[String]) -> i32 {
                     }
                     seqs = next;
                 }
+                // re-configuration between calls: after each builder call the next result must be what a FRESH
+                // generator with the now-current configuration returns
+                if cfg.max <= 2000 {
+                    let mut cur = cfg.clone();
+                    let mut g = build_generator(&cur, Some(spec.seed));
+                    let mut got = Vec::new();
+                    let mut want = Vec::new();
+                    let mut steps: Vec<&str> = Vec::new();
+                    let plan: [&str; 9] = ["gen", "buf", "gen", "ext", "gen", "buf", "range", "gen", "bytes"];
+                    for st in plan {
+                        match st {
+                            "buf" => { cur.buf = !cur.buf; g = g.with_buffer_opcodes(cur.buf); }
+                            "ext" => { cur.ext = !cur.ext; g = g.with_ext_opcodes(cur.ext); }
+                            "range" => { cur.min += 3; cur.max += 11; g = g.with_opcode_range(cur.min, cur.max); }
+                            _ => {
+                                let c = if st == "gen" { 1 } else { 2 };
+                                let (res, d, n) = do_call(&mut g, c, &spec.x, &spec.y);
+                                got.push(json!([res, d, n]));
+                                let mut f = build_generator(&cur, Some(spec.seed));
+                                let (res, d, n) = do_call(&mut f, c, &spec.x, &spec.y);
+                                want.push(json!([res, d, n]));
+                            }
+                        }
+                        steps.push(st);
+                    }
+                    out.push(json!({"t": "reconf", "cfg": ci, "P": cfg.p, "steps": steps, "got": got, "want": want}).to_string());
+                }
                 // a generator WITHOUT a seed draws fresh OS entropy for every generate(): no call may repeat an
                 // earlier result, whatever was called in between (reset, generation from fuzzer bytes)
                 if ci < 12 {
@@ -188,6 +215,10 @@ struct DetSpec {
     /// process generates that member FIRST and then the rest of its group
     #[serde(default)]
     groups: Vec<Vec<u64>>,
+    /// a directory that holds altered copies of the data files the repository ships: one child process runs
+    /// with it as its working directory (and with a changed environment)
+    #[serde(default)]
+    decoy_cwd: String,
 }
 
 fn run_plain(job: &Job) -> (i64, String, usize) {
@@ -282,7 +313,14 @@ pub fn determinism(args: &[String]) -> i32 {
     for p in 0..spec.procs {
         // every child walks the grid in a different order (rotation, odd ones reversed), so
         // anything that depends on what the process generated before shows up as a difference
-        let o = std::process::Command::new(&exe).arg("gen-batch").arg(&jf).arg(p.to_string()).output().unwrap();
+        let mut cmd = std::process::Command::new(&exe);
+        cmd.arg("gen-batch").arg(&jf).arg(p.to_string());
+        if p == 0 && !spec.decoy_cwd.is_empty() {
+            // nothing in the environment of the process is an input of generation
+            cmd.current_dir(&spec.decoy_cwd).env("HOME", &spec.decoy_cwd).env("LANG", "tr_TR.UTF-8").env("LC_ALL", "tr_TR.UTF-8")
+               .env("TZ", "Pacific/Kiritimati").env("RAYON_NUM_THREADS", "3").env("RUST_BACKTRACE", "1").env("TMPDIR", &spec.decoy_cwd);
+        }
+        let o = cmd.output().unwrap();
         for l in String::from_utf8_lossy(&o.stdout).lines() {
             let f: Vec<&str> = l.split(' ').collect();
             if f.len() == 4 {
